@@ -1,6 +1,7 @@
 package mast
 
 import (
+	"encoding/json"
 	"fmt"
 	"os"
 	"sort"
@@ -147,6 +148,11 @@ func bKeyTypes(t *testing.T) {
 		{"uint64", uint64(0), []interface{}{uint64(0), uint64(1), uint64(1 << 40), uint64(1<<63 - 1), uint64(1 << 63), uint64(1<<64 - 2), uint64(1<<64 - 1)}},
 		{"uint", uint(0), []interface{}{uint(0), uint(1), uint(1 << 63), uint(1<<64 - 1)}},
 		{"string", "", []interface{}{"", "\x00", "A", "B", "a", "aa", "ab", "b", "zz"}},
+		// key types without a native case are ordered by the bytes of their marshaled (JSON) form
+		{"int32", int32(0), bSortByJSON([]interface{}{int32(-20), int32(-3), int32(-1), int32(0), int32(1), int32(9), int32(10), int32(11), int32(100), int32(2147483647)})},
+		{"uint16", uint16(0), bSortByJSON([]interface{}{uint16(0), uint16(1), uint16(2), uint16(9), uint16(10), uint16(99), uint16(100), uint16(65535)})},
+		{"int8", int8(0), bSortByJSON([]interface{}{int8(-128), int8(-9), int8(-1), int8(0), int8(5), int8(10), int8(127)})},
+		{"struct", bKeyStruct{}, bSortByJSON([]interface{}{bKeyStruct{1, "a"}, bKeyStruct{1, "b"}, bKeyStruct{2, ""}, bKeyStruct{10, "a"}, bKeyStruct{9, "z"}})},
 	}
 	n := 0
 	for _, f := range fams {
@@ -661,6 +667,18 @@ func TestBounded_C09(t *testing.T) {
 		for i, n := 0, 6+r.intn(24); i < n; i++ {
 			model[r.intn(40)] = r.intn(3)
 		}
+		if seed%2 == 0 {
+			// sizes just above a power of the branch factor: the delete has to lower the tree,
+			// which reads the children of the top node
+			model = map[int]int{}
+			sz := int(bf) + 1
+			if seed%4 == 0 {
+				sz = int(bf*bf) + 1
+			}
+			for k := 1; k <= sz; k++ {
+				model[k] = k % 3
+			}
+		}
 		base, err := bBuild(bf, nf, st, model, 0, false)
 		if err != nil {
 			continue
@@ -832,4 +850,21 @@ type bOptStruct struct {
 	A int    `json:",omitempty"`
 	B string `json:",omitempty"`
 	C []int  `json:",omitempty"`
+}
+
+type bKeyStruct struct {
+	A int
+	B string
+}
+
+// bSortByJSON orders keys by the bytes of their JSON encoding (computed here, independently of the
+// library), the published order of key types that have no native comparison.
+func bSortByJSON(keys []interface{}) []interface{} {
+	enc := func(k interface{}) string {
+		b, _ := json.Marshal(k)
+		return string(b)
+	}
+	out := append([]interface{}(nil), keys...)
+	sort.Slice(out, func(i, j int) bool { return enc(out[i]) < enc(out[j]) })
+	return out
 }
